@@ -40,6 +40,7 @@ class Skel:
         self.want = "0"     # operation the decoder is asked to recognise (0 = any)
         self.pair = False   # non-interference: assemble the same text on a second instance with other options
         self.alt_parts = None  # C16: a second spelling of the same line, assembled with the same options
+        self.context = None    # C06: (text of a concrete line assembled before this one in the same call, its bytes when assembled alone)
 
     # ---- inputs -------------------------------------------------------
     def reg(self, mask, letter="r"):
@@ -99,6 +100,8 @@ class Skel:
                     lit = "0x" + d * 4
                 elif style == "hexz":
                     lit = "0x000" + d * 4
+                elif style == "decz":
+                    lit = "000" + d * 4
                 elif style == "hex16":
                     lit = "0x" + d * 16
                 else:
@@ -118,7 +121,7 @@ class Skel:
                 args.append("vf_regname(R%d)" % p[1])
             else:
                 _, k, style, neg = p
-                st = {"hex": 0, "hex16": 1, "dec": 2, "hexz": 3}[style]
+                st = {"hex": 0, "hex16": 1, "dec": 2, "hexz": 3, "decz": 4}[style]
                 pre.append("char nb%s%d[40]; vf_fmt_num(nb%s%d, %d, %d);" % (tag, i, tag, i, k, st))
                 fmt += ("-" if neg else "") + "%s"
                 args.append("nb%s%d" % (tag, i))
@@ -158,6 +161,14 @@ class Skel:
         L.append("#endif")
         L.append("  int rc = asm_assemble_str(al, vf_text);")
         L.append("  int end = asm_get_offset(al);")
+        if self.context:
+            ctext, cbytes = self.context
+            L.append("  /* the preceding line of the same call must come out exactly as when assembled alone, and this line starts right after it */")
+            L.append("  static const uint8_t ctx[] = { %s };" % ", ".join("0x%02x" % b for b in cbytes))
+            L.append("  if (rc == EXIT_SUCCESS) {")
+            L.append("    for (unsigned i = 0; i < sizeof ctx; i++) CHECK(vf_buf[start + i] == ctx[i], \"the preceding line's code is the code it yields when assembled alone\");")
+            L.append("  }")
+            L.append("  start += (int)sizeof ctx;")
         L.append("#ifndef VF_CBMC")
         L.append('  printf("RC %d BYTES", rc); for (int i = start; rc == 0 && i < end && i < BUFN; i++) printf(" %02x", vf_buf[i]); printf("\\n");')
         L.append("#endif")
